@@ -256,6 +256,10 @@ GUARDS = [
     (JDARITH, "jdarith.c", "while (e->a < 0x8000L) { if (--e->ct < 0) {", "arith_decode renormalisation loop"),
     (JDARITH, "jdarith.c", "memset(entropy->dc_stats[tbl], 0, DC_STAT_BINS);", "arith DC stats zeroed"),
     (JDARITH, "jdarith.c", "memset(entropy->ac_stats[tbl], 0, AC_STAT_BINS);", "arith AC stats zeroed"),
+    (strip_comments(rd("jdtrans.c")), "jdtrans.c", "for (;;) { int retcode; if (cinfo->progress != NULL) (*cinfo->progress->progress_monitor) ((j_common_ptr)cinfo); retcode = (*cinfo->inputctl->consume_input) (cinfo); if (retcode == JPEG_SUSPENDED) return NULL; if (retcode == JPEG_REACHED_EOI) break;", "jpeg_read_coefficients calls the progress monitor before every consume_input"),
+    (strip_comments(rd("jdapistd.c")), "jdapistd.c", "for (;;) { int retcode; if (cinfo->progress != NULL) (*cinfo->progress->progress_monitor) ((j_common_ptr)cinfo); retcode = (*cinfo->inputctl->consume_input) (cinfo); if (retcode == JPEG_SUSPENDED) return FALSE; if (retcode == JPEG_REACHED_EOI) break;", "jpeg_start_decompress calls the progress monitor before every consume_input"),
+    (strip_comments(rd("turbojpeg.c")), "turbojpeg.c", "if (dinfo->is_decompressor) { int scan_no = ((j_decompress_ptr)dinfo)->input_scan_number; if (scan_no > myprog->this->scanLimit) {", "TurboJPEG scan limit lives in the progress monitor"),
+    (JDLHUFF, "jdlhuff.c", "entropy->output_ptr[ptrn] = diff_buf[ci][MCU_row_num + yoffset] + (MCU_col_num * MCU_width);", "lhuff decode_mcus row start"),
     (JDMARKER, "jdmarker.c", "marker->cur_marker = cur_marker; marker->bytes_read = 0;", "save_marker sets bytes_read whenever it sets cur_marker"),
     (JDMARKER, "jdmarker.c", "cinfo->marker->next_restart_num = 0;", "get_sos resets next_restart_num"),
     (JDHUFF_C, "jdhuff.c", "for (k = 1; k < DCTSIZE2; k++) { HUFF_DECODE(s, br_state, actbl, return FALSE, label2); r = s >> 4; s &= 15; if (s) { k += r; CHECK_BIT_BUFFER(br_state, s, return FALSE); r = GET_BITS(s); s = HUFF_EXTEND(r, s);", "decode_mcu_slow AC loop"),
@@ -403,6 +407,68 @@ consts["AC_STAT_BINS"] = ceval(define(JDARITH, "AC_STAT_BINS", "jdarith.c"))
 bounds.append(("bound_fixed_bin", arr(JDARITH, "jdarith.c", r"unsigned\s+char\s+fixed_bin\s*\[([^\]]+)\]", "arith fixed_bin")))
 bounds.append(("bound_dc_context", arr(JDARITH, "jdarith.c", r"int\s+dc_context\s*\[([^\]]+)\]", "arith dc_context")))
 
+# ---------------------------------------------------------------- statistics areas: allocated (start_pass) vs re-initialised (process_restart)
+
+
+def cond_to_coq(c, fn):
+    """C condition over progressive_mode / Ss / Ah -> Gallina bool over (prog : bool) (Ss Ah : Z)"""
+    t = " ".join(c.split())
+    t = t.replace("!cinfo->progressive_mode", "NOTPROG").replace("cinfo->progressive_mode", "PROG")
+    t = re.sub(r"cinfo->Ss == 0", "(Ss =? 0)", t)
+    t = re.sub(r"cinfo->Ah == 0", "(Ah =? 0)", t)
+    t = re.sub(r"cinfo->Ss\b", "(negb (Ss =? 0))", t)
+    t = re.sub(r"cinfo->Ah\b", "(negb (Ah =? 0))", t)
+    t = t.replace("NOTPROG", "(negb prog)").replace("PROG", "prog")
+    if re.search(r"cinfo|->|[!<>]", t.replace("=?", "")):
+        die("%s: statistics-area condition '%s' not understood" % (fn, c))
+    return t
+
+
+def stat_conds(body, fn, what):
+    """the innermost braced if-condition enclosing the first dc_stats[ / ac_stats[ access of a function body"""
+    res = []
+    for arr_name in ("dc_stats[", "ac_stats["):
+        pos = body.find(arr_name)
+        if pos < 0:
+            die("%s: %s: no %s access" % (fn, what, arr_name))
+        cands = [m for m in re.finditer(r"if \(([^{};]*?)\) \{", body[:pos], re.S)]
+        if not cands:
+            die("%s: %s: %s access is not guarded by a braced if" % (fn, what, arr_name))
+        res.append(cond_to_coq(cands[-1].group(1), fn))
+    return res[0], res[1]
+
+
+def func_body2(src, fn, name):
+    mm = re.search(r"\n%s\s*\(j_decompress_ptr cinfo\)\s*\{(.*?)\n\}" % name, src, re.S)
+    if not mm:
+        die("%s: function %s not found" % (fn, name))
+    return mm.group(1)
+
+
+sp_body = func_body2(JDARITH, "jdarith.c", "start_pass")
+sp_alloc = sp_body[sp_body.find("Allocate & initialize requested statistics areas") if "Allocate" in sp_body else 0:]
+i0 = sp_body.find("for (ci = 0; ci < cinfo->comps_in_scan; ci++) {\n    compptr")
+sp_dc, sp_ac = stat_conds(sp_body[sp_body.rfind("for (ci = 0; ci < cinfo->comps_in_scan; ci++)"):], "jdarith.c", "start_pass")
+pr_dc, pr_ac = stat_conds(func_body2(JDARITH, "jdarith.c", "process_restart"), "jdarith.c", "process_restart")
+
+# ---------------------------------------------------------------- lossless difference-row length
+JDDIFFCT_S = JDDIFFCT
+rows = re.findall(r"diff->(diff_buf|undiff_buf)\[ci\]\s*=\s*ALLOC_DARRAY\(JPOOL_IMAGE,\s*(.*?),\s*\(JDIMENSION\)compptr->v_samp_factor\)", JDDIFFCT_S, re.S)
+if sorted(r[0] for r in rows) != ["diff_buf", "undiff_buf"]:
+    die("jddiffct.c: ALLOC_DARRAY of diff_buf / undiff_buf not found")
+
+
+def width_to_coq(e):
+    t = norm(e)
+    if t == norm("(JDIMENSION)jround_up((long)compptr->width_in_blocks, (long)compptr->h_samp_factor)"):
+        return "gen_round_up wib h"
+    if t in (norm("compptr->width_in_blocks"), norm("(JDIMENSION)compptr->width_in_blocks")):
+        return "wib"
+    die("jddiffct.c: difference-row width expression '%s' not understood" % " ".join(e.split()))
+
+
+diff_w = dict((k, width_to_coq(e)) for k, e in rows)
+
 # ---------------------------------------------------------------- output
 out = []
 w = out.append
@@ -446,6 +512,16 @@ w("")
 w("(* jpeg_aritab (jaricom.c): (Qe, Next_Index_LPS, Next_Index_MPS, Switch_MPS) per state *)")
 w("Definition aritab : list (Z * Z * Z * Z) :=\n  [%s]." % "; ".join("(%d, %d, %d, %d)" % (a, b, c, d) for _, a, b, c, d in ari))
 w("Definition L_DC_STAT_BINS : Z := %d.\nDefinition L_AC_STAT_BINS : Z := %d." % (consts["DC_STAT_BINS"], consts["AC_STAT_BINS"]))
+w("")
+w("(* jdarith.c: when start_pass validates/allocates dc_stats[Td] / ac_stats[Ta], and when process_restart memsets them *)")
+w("Definition sp_allocs_dc (prog : bool) (Ss Ah : Z) : bool := %s." % sp_dc)
+w("Definition sp_allocs_ac (prog : bool) (Ss Ah : Z) : bool := %s." % sp_ac)
+w("Definition restart_uses_dc (prog : bool) (Ss Ah : Z) : bool := %s." % pr_dc)
+w("Definition restart_uses_ac (prog : bool) (Ss Ah : Z) : bool := %s." % pr_ac)
+w("(* jddiffct.c: samples per row of the lossless difference / undifference buffers of a component *)")
+w("Definition gen_round_up (a b : Z) : Z := ((a + b - 1) / b) * b.")
+w("Definition diff_buf_row (wib h : Z) : Z := %s." % diff_w["diff_buf"])
+w("Definition undiff_buf_row (wib h : Z) : Z := %s." % diff_w["undiff_buf"])
 w("")
 w("(* guards of the C text the model mirrors: (file, what, found verbatim modulo whitespace) *)")
 w("Definition guards : list (string * string * bool) :=\n  [%s]." % ";\n   ".join(
